@@ -254,12 +254,8 @@ def static_rows(kinds):
 
 
 def rows_domain(kind, universe):
-    n = ARITY[kind]
-    if kind == "select":
-        # the condition ranges over boolean and one representative of every other kind
-        conds = [t for t in universe if t in ("boolean", "integer64", "float32", "complex64", "bool", "int64")]
-        return [(c0, a, b) for c0 in conds for a in universe for b in universe]
-    return list(itertools.product(universe, repeat=n))
+    """operand tuples of a kind in lexicographic order of the universe (rows are found by position in Lean)"""
+    return list(itertools.product(universe, repeat=ARITY[kind]))
 
 
 def print_node(e):
@@ -567,45 +563,70 @@ def row_status(static, canon, arg_types, obs_lookup, k, idx):
 
 # ----------------------------------------------------------------------------- Lean emission
 
+def lean_ty_pat(name):
+    k, b = ty_tuple(name)
+    return f"⟨.{k}, {'none' if b is None else 'some %d' % b}⟩"
+
+
 def emit_lean(tables):
     canon, srows, nrows, crows, yrows = tables["canon"], tables["static"], tables["np"], tables["consts"], tables["symbols"]
+    D = dtype_universe(canon)
     L = ["/- GENERATED by fav/props/c08.py from the current source of the repository under test; do not edit.",
-         "   static : the REAL Expr.get_type / is_complex, one real node per row;",
-         "   np     : OBSERVED dtype of the text the real numpy printer emits for the node, evaluated on numpy scalars;",
-         "   canon  : targets/numpy.py type_to_target.  -/",
+         "   s_<kind> : the REAL Expr.get_type / is_complex, one real node per row;",
+         "   n_<kind> : OBSERVED dtype of the text the real numpy printer emits for the node, evaluated on numpy scalars;",
+         "   canon    : targets/numpy.py type_to_target.  -/",
          "import FAVerif.Models.Typing", "", "namespace FAVerif.Gen.C08", "open FAVerif.Typing", ""]
-    L.append("def canon : List (Ty × Ty) := [" + ", ".join(f"({lean_ty(a)}, {lean_ty(b)})" for a, b in sorted(canon.items())) + "]")
+    L.append("def canon : Ty → Option Ty")
+    for a, b in sorted(canon.items()):
+        L.append(f"  | {lean_ty_pat(a)} => some {lean_ty(b)}")
+    L.append("  | _ => none")
+    L.append("")
+    L.append("def ucode : Ty → Option Nat")
+    for n, t in enumerate(UNIVERSE):
+        L.append(f"  | {lean_ty_pat(t)} => some {n}")
+    L.append("  | _ => none")
+    L.append("")
+    L.append("def dcode : Ty → Option Nat")
+    for n, t in enumerate(D):
+        L.append(f"  | {lean_ty_pat(t)} => some {n}")
+    L.append("  | _ => none")
     L.append("")
     by_kind = collections.OrderedDict()
     for r in srows:
         by_kind.setdefault(r[0], []).append(r)
-    names = []
+    skinds = list(by_kind)
     for k, rs in by_kind.items():
-        names.append(f"s_{k}")
         L.append(f"def s_{k} : List SRow := [")
         L.append(",\n".join(
             f"  ⟨.{k}, {idx}, {lean_list(args)}, {lean_opt_ty(ty)}, {'none' if ic is None else '(some %s)' % str(ic).lower()}⟩"
             for (_k, idx, args, ty, ic) in rs))
         L.append("]")
-    L.append("def chunks : List (List SRow) := [" + ", ".join(names) + "]")
+    L.append("def kinds : List Kind := [" + ", ".join("." + k for k in skinds) + "]")
+    L.append("def chunkOf : Kind → List SRow")
+    for k in skinds:
+        L.append(f"  | .{k} => s_{k}")
+    if len(skinds) < len(LEAN_KINDS):
+        L.append("  | _ => []")
     L.append("")
     by_kind = collections.OrderedDict()
     for r in nrows:
         by_kind.setdefault(r[0], []).append(r)
-    names = []
     for k, rs in by_kind.items():
-        names.append(f"(.{k}, n_{k})")
         L.append(f"def n_{k} : List NRow := [")
         L.append(",\n".join(f"  ⟨.{k}, {idx}, {lean_list(args)}, {lean_list(obs)}⟩" for (_k, idx, args, obs) in rs))
         L.append("]")
-    L.append("def np : List (Kind × List NRow) := [" + ", ".join(names) + "]")
+    L.append("def npOf : Kind → List NRow")
+    for k in by_kind:
+        L.append(f"  | .{k} => n_{k}")
+    if len(by_kind) < len(LEAN_KINDS):
+        L.append("  | _ => []")
     L.append("")
     L.append("def consts : List CRow := [")
     L.append(",\n".join(f"  ⟨.{vc}, {lean_ty(lt)}, {lean_opt_ty(ty)}, {lean_list(obs)}⟩" for (vc, lt, ty, obs) in crows))
     L.append("]")
     L.append("def symbols : List YRow := [" + ", ".join(f"⟨{lean_ty(t)}, {lean_list(obs)}⟩" for t, obs in yrows) + "]")
     L.append("")
-    L.append("def tables : Tables := ⟨canon, chunks, np, consts, symbols⟩")
+    L.append(f"def tables : Tables := ⟨canon, ucode, {len(UNIVERSE)}, dcode, {len(D)}, kinds, chunkOf, npOf, consts, symbols⟩")
     L.append("")
     L.append("end FAVerif.Gen.C08")
     return "\n".join(L) + "\n"
